@@ -82,6 +82,10 @@ def expand(spec):
     if at and "auto" in spec["modes"]:
         # auto-mode entries that carry a temperature (they exist in real databases and count for the reported range)
         keys += [f"aa{t}_f0" for t in at if 10 <= t <= 99]
+    if spec.get("d1_only_prefixed") and spec["toggle"]:
+        # swing entries stored only in their power-toggling form for one mode (sparse real databases look like this)
+        code = MODE_CODE[spec["modes"][seed % len(spec["modes"])]]
+        keys = [k for k in keys if not (k.startswith(code) and k.endswith("_d1"))]
     keys.sort(key=lambda k: _h(seed, k, "o"))
     if spec.get("lonely_min"):
         # database order in which the lowest temperature occurs exactly once and is the first temperature listed
